@@ -266,7 +266,7 @@ void LDA(matrix *mx, matrix *my, LDAMODEL *lda)
   for(k = 0; k < classes->order; k++){
     for(i = 0; i < classes->m[k]->row; i++){
       for(j = 0; j < classes->m[k]->col; j++){
-        classes->m[k]->data[i][j] -= mutot->data[j];
+        classes->m[k]->data[i][j] -= lda->mu->data[k][j];
       }
     }
   }
@@ -399,7 +399,7 @@ void LDA(matrix *mx, matrix *my, LDAMODEL *lda)
   for(k = 0; k < classes->order; k++){
     for(i = 0; i < classes->m[k]->row; i++){
       for(j = 0; j < classes->m[k]->col; j++){
-        classes->m[k]->data[i][j] += mutot->data[j];
+        classes->m[k]->data[i][j] += lda->mu->data[k][j];
       }
     }
   }
